@@ -22,8 +22,6 @@ Import ListNotations.
 From DD Require Import Base.PyStr Base.Value Diff.Tree Diff.DiffModel Hash.HashModel Hash.HashMembers
   DiffIO.DiffIOModel.
 
-Definition atom_of_v (v : value) : atom := match v with VAtom a => a | _ => ANone end.
-
 Section Memo.
 Variable H : pystr -> pystr.
 Variable udiff : pystr -> pystr -> pystr.
@@ -142,12 +140,17 @@ Definition level_m (mk : list value -> value) (recs : list rec_m) (xs ys : list 
     let md := snd (hash_memo H o (mk ys) mc) in
     iter_m recs xs ys hs1 hs2 p1 p2 md.
 
-(* _diff_set on the shared table *)
-Definition diff_set_io_m (t1 t2 : value) (p1 p2 : path) : MM :=
+(* _diff_set on the shared table: t1's members in iteration order, the set itself, then t2's;
+   what is reported is [diff_set] on the hashes the table served *)
+Definition tbl_hatom (t : list (atom * pystr)) (a : atom) : pystr :=
+  match find (fun e => atom_eqb (fst e) a) t with Some e => snd e | None => [] end.
+Definition set_level_m (t1 t2 : value) (xs ys : list atom) (p1 p2 : path) : MM :=
   fun m =>
-    let '(rem, add, m') := diff_set_memo H o m t1 t2 in
-    ((flat_map (fun y => report_set skip KSetAdd (atom_of_v y) p1 p2) add
-      ++ flat_map (fun x => report_set skip KSetRem (atom_of_v x) p1 p2) rem, []), m').
+    let '(hs1, ma) := hash_items_memo H o m (map VAtom xs) in
+    let mb := snd (hash_memo H o t1 ma) in
+    let '(hs2, mc) := hash_items_memo H o mb (map VAtom ys) in
+    let md := snd (hash_memo H o t2 mc) in
+    ((diff_set (tbl_hatom (combine xs hs1 ++ combine ys hs2)) skip xs ys p1 p2, []), md).
 
 Definition find_rec_m (k' : atom) (recs : list (atom * rec_m)) : option rec_m :=
   match find (fun kr => keep_key c (fst kr) && py_eq (fst kr) k') recs with
@@ -196,7 +199,7 @@ Fixpoint diff_io_m (t1 t2 : value) (p1 p2 : path) {struct t1} : MM :=
   | VTuple xs, VTuple ys =>
       level_m VTuple ((fix go (l : list value) : list rec_m :=
                          match l with [] => [] | x :: r => diff_io_m x :: go r end) xs) xs ys p1 p2
-  | VSet _, VSet _ | VFrozen _, VFrozen _ => diff_set_io_m t1 t2 p1 p2
+  | VSet xs, VSet ys | VFrozen xs, VFrozen ys => set_level_m t1 t2 xs ys p1 p2
   | _, _ => mmret ([], [])
   end.
 
